@@ -21,20 +21,20 @@ variable {L K : Type} [DecidableEq K]
     all its body lines in order.  Surviving tags and empty tags produce no entry. -/
 theorem C03_lost_complete (c : Cfg L K) (norm : L → L) (hn : NormOK c norm)
     (B : K → List L) (hB : UserOK c B) (F₀ F₁ : List (Item L))
-    (hF₀ : FreshDoc c norm F₀) (hF₁ : FreshDoc c norm F₁) (hx : CrossOK c F₀ F₁) :
+    (hF₀ : FreshDoc c norm F₀) (hF₁ : FreshDoc c norm F₁) :
     lostEntries (collect c (render (onDisk c norm B F₀)))
         (used c (collect c (render (onDisk c norm B F₀))) (render F₁))
       = ((blockKeys c F₀).filter (fun k => !(decide (k ∈ blockKeys c F₁)) && !(B k).isEmpty)).map
           (fun k => (k, B k)) :=
-  lost_onDisk c norm hn B hB F₀ F₁ hF₀ hF₁ hx
+  lost_onDisk c norm hn B hB F₀ F₁ hF₀ hF₁
 
 theorem C03_no_spurious_entry (c : Cfg L K) (norm : L → L) (hn : NormOK c norm)
     (B : K → List L) (hB : UserOK c B) (F₀ F₁ : List (Item L))
-    (hF₀ : FreshDoc c norm F₀) (hF₁ : FreshDoc c norm F₁) (hx : CrossOK c F₀ F₁) (k : K) (b : List L)
+    (hF₀ : FreshDoc c norm F₀) (hF₁ : FreshDoc c norm F₁) (k : K) (b : List L)
     (hmem : (k, b) ∈ lostEntries (collect c (render (onDisk c norm B F₀)))
         (used c (collect c (render (onDisk c norm B F₀))) (render F₁))) :
     k ∈ blockKeys c F₀ ∧ k ∉ blockKeys c F₁ ∧ b = B k ∧ b ≠ [] := by
-  rw [lost_onDisk c norm hn B hB F₀ F₁ hF₀ hF₁ hx] at hmem
+  rw [lost_onDisk c norm hn B hB F₀ F₁ hF₀ hF₁] at hmem
   simp only [List.mem_map, List.mem_filter, Bool.and_eq_true, Bool.not_eq_true',
     decide_eq_false_iff_not, Prod.mk.injEq] at hmem
   obtain ⟨k', ⟨hk0, hk1, hne⟩, rfl, rfl⟩ := hmem
